@@ -54,7 +54,7 @@ CHECKS["C16"] = dict(
     design="8/C16", technique="TLA+ model of UTF-8 arithmetic checked by TLC; case tables and dumps bound to uc.c (M2)",
     note="Quick tier covers boundary and strided code points, thorough all 1.1 M. The editing clause is checked by the "
          "scalar-value invariant of Gen_Ex!Thm plus the text comparison of C06/C14/C15 on multi-byte scripts.")
-for _p, _t in (("C06", "line commands and addresses: a i c d y pu p = k rs, bare addresses, :r file, :range!filter, :@ register execution, u / redo"), ("C14", "substitute"), ("C15", "global")):
+for _p, _t in (("C06", "line commands and addresses: a i c d y pu p = k rs, bare addresses, :r file, :range!filter, :@ register execution, u / redo"), ("C14", "substitute"), ("C15", "global: g / v / g! with lists of d s pu a i c (also +1c: typed text is never visited) p y k, relative addresses, deletions in front of the visited line followed by a move forward (the lowest marked line is next), aborting lists, nested globals")):
     CHECKS[_p] = dict(
         level="model_checking",
         text="Ex.tla gives every ex command one meaning (ExStep) over abstract text; Gen_Ex.tla builds seeded scripts "
